@@ -30,6 +30,8 @@ pub struct HKernel {
     threads: Mutex<HashMap<ThreadId, ThreadAff>>,
     get_widths: Mutex<HashMap<ThreadId, Vec<(usize, bool)>>>, // bytes offered to getaffinity, accepted?
     tick: Mutex<u64>,
+    /// threads whose next sched_setaffinity is refused with EINVAL (fault injection: the OS does not take the mask)
+    refuse: Mutex<std::collections::HashSet<ThreadId>>,
 }
 
 #[derive(Debug, Clone)]
@@ -42,7 +44,22 @@ const EINVAL: i32 = 22;
 
 impl HKernel {
     pub fn new(nr_cpu_ids: usize, cpus: BTreeSet<u32>) -> Self {
-        Self { nr_cpu_ids, cpus, threads: Mutex::new(HashMap::new()), get_widths: Mutex::new(HashMap::new()), tick: Mutex::new(0) }
+        Self { nr_cpu_ids, cpus, threads: Mutex::new(HashMap::new()), get_widths: Mutex::new(HashMap::new()), tick: Mutex::new(0),
+               refuse: Mutex::new(std::collections::HashSet::new()) }
+    }
+    /// the calling thread's next sched_setaffinity fails
+    pub fn refuse_next(&self) {
+        self.refuse.lock().unwrap().insert(thread::current().id());
+    }
+    /// the affinity record of the calling thread (None = never set), to hand to a thread it creates
+    fn entry(&self) -> Option<ThreadAff> {
+        self.threads.lock().unwrap().get(&thread::current().id()).cloned()
+    }
+    /// a newly created thread starts with the affinity of its creator, as in the kernel
+    fn inherit(&self, parent: Option<ThreadAff>) {
+        if let Some(a) = parent {
+            self.threads.lock().unwrap().insert(thread::current().id(), a);
+        }
     }
     fn current(&self) -> ThreadAff {
         let id = thread::current().id();
@@ -67,6 +84,9 @@ impl HKernel {
 
 impl VerifAffinityKernel for HKernel {
     fn sched_setaffinity_current(&self, mask: &[u8]) -> Result<(), i32> {
+        if self.refuse.lock().unwrap().remove(&thread::current().id()) {
+            return Err(EINVAL);
+        }
         let mut eff = BTreeSet::new();
         for b in set_bits(mask) {
             if (b as usize) < self.nr_cpu_ids && self.cpus.contains(&b) {
@@ -117,6 +137,7 @@ pub struct Hw {
     pub hw: SystemHardware,
     pub procs: Vec<(u32, u32)>, // (id, region) of every processor the instance reports
     pub map: Vec<u32>,          // abstract processor -> processor id of this instance
+    pub full: bool,             // the set of all abstract processors is replayed as the set of ALL processors of the instance
     pub kernel: Option<Arc<HKernel>>,
     pub platform: Option<VerifLinuxPlatform>,
 }
@@ -127,7 +148,7 @@ fn procs_of(hw: &SystemHardware) -> Vec<(u32, u32)> {
 
 pub fn real_hw(h: u32, map: Vec<u32>) -> Hw {
     let hw = SystemHardware::current().clone();
-    Hw { h, kind: Kind::Real, procs: procs_of(&hw), hw, map, kernel: None, platform: None }
+    Hw { h, kind: Kind::Real, procs: procs_of(&hw), hw, map, full: false, kernel: None, platform: None }
 }
 
 /// Fake hardware with the given (id, region) processors.
@@ -137,7 +158,7 @@ pub fn fake_hw(h: u32, procs: &[(u32, u32)], map: Vec<u32>) -> Hw {
         b = b.processor(ProcessorBuilder::new().id(*id).memory_region(*region));
     }
     let hw = SystemHardware::fake(b);
-    Hw { h, kind: Kind::Fake, procs: procs_of(&hw), hw, map, kernel: None, platform: None }
+    Hw { h, kind: Kind::Fake, procs: procs_of(&hw), hw, map, full: false, kernel: None, platform: None }
 }
 
 /// The H4 Linux platform over a harness kernel: cpu 0 plus the given ids (typically >= 64), two nodes.
@@ -163,7 +184,7 @@ pub fn linux_hw(h: u32, ids: &[u32], nodes: &[u32], nr_cpu_ids: usize, map: Vec<
     let kernel = Arc::new(HKernel::new(nr_cpu_ids, all.clone()));
     let platform = VerifLinuxPlatform::new(Arc::new(inventory_h::render(&d)), kernel.clone());
     let hw = platform.hardware();
-    Hw { h, kind: Kind::Linux, procs: procs_of(&hw), hw, map, kernel: Some(kernel), platform: Some(platform) }
+    Hw { h, kind: Kind::Linux, procs: procs_of(&hw), hw, map, full: false, kernel: Some(kernel), platform: Some(platform) }
 }
 
 fn hw_json(x: &Hw) -> Value {
@@ -250,6 +271,11 @@ fn set_of(x: &Hw, ids: &[u32]) -> ProcessorSet {
 
 enum Cmd {
     Pin(usize, Vec<u32>),
+    /// the OS refuses the mask (harness kernel only; elsewhere an ordinary pin)
+    PinRefused(usize, Vec<u32>),
+    /// a plain std thread created by this thread (it inherits the creator's OS affinity and has no library state)
+    /// pins ITSELF to the set
+    PlainPin(usize, Vec<u32>),
     Obs(usize),
     SpawnThreads(usize, Vec<u32>),
     SpawnThread(usize, Vec<u32>),
@@ -274,6 +300,40 @@ fn actor_main(t: u32, hws: Arc<Vec<Hw>>, rx: Receiver<Cmd>, tx: Sender<Vec<Value
                 let ids2 = ids.clone();
                 let r = vrt::catch(move || set_of(&x, &ids2).pin_current_thread_to());
                 vec![json!({"ev":"pin","t":t,"h":hws[i].h,"s":ids,"panic":r.err().unwrap_or_default()})]
+            }
+            Cmd::PinRefused(i, ids) => {
+                let x = hws[i].clone();
+                let refused = x.kind == Kind::Linux;
+                if let Some(k) = &x.kernel {
+                    k.refuse_next();
+                }
+                let ids2 = ids.clone();
+                let r = vrt::catch(move || set_of(&x, &ids2).pin_current_thread_to());
+                vec![json!({"ev":"pin","t":t,"h":hws[i].h,"s":ids,"refused":refused,"panic":r.err().unwrap_or_default()})]
+            }
+            Cmd::PlainPin(i, ids) => {
+                let x = hws[i].clone();
+                let hws2 = hws.clone();
+                let parents: Vec<Option<ThreadAff>> = hws.iter().map(|y| y.kernel.as_ref().and_then(|k| k.entry())).collect();
+                let ids2 = ids.clone();
+                let r: ChildResult = Ok(vec![thread::spawn(move || {
+                    for (y, p) in hws2.iter().zip(parents) {
+                        if let Some(k) = &y.kernel {
+                            k.inherit(p);
+                        }
+                    }
+                    let x2 = x.clone();
+                    let ids3 = ids2.clone();
+                    let pinned = vrt::catch(move || set_of(&x2, &ids3).pin_current_thread_to());
+                    let mut obs: Vec<Value> = hws2.iter().map(|y| observe(y, 0)).collect();
+                    if let Err(m) = pinned {
+                        obs.push(json!({"ev":"obs","t":0,"h":x.h,"k":false,"kaff":[],"kcpu":-1,"kwords":[],"klen":0,"ctp":[],"ctppanic":"","widths":[],
+                            "pp":false,"rp":false,"cpu":-1,"region":-1,"tpsome":false,"tp":[],"panic":format!("pin panicked: {m}")}));
+                    }
+                    (u32::MAX, obs.into_iter().chain(std::iter::once(json!({"gset": ids2}))).collect())
+                })
+                .join()]);
+                spawn_result(t, &hws[i], "plain", r)
             }
             Cmd::SpawnThreads(i, ids) => {
                 let x = hws[i].clone();
@@ -403,9 +463,15 @@ fn run_history(ctx: &mut Ctx, ops: &[Value], hws: Vec<Hw>, aff0: &[u32]) {
     for op in ops {
         let t = op["t"].as_u64().unwrap() as usize;
         let hi = op["h"].as_u64().unwrap() as usize - 1;
-        let ids: Vec<u32> = op["s"].as_array().unwrap().iter().map(|p| hws[hi].map[p.as_u64().unwrap() as usize]).collect();
+        let mut ids: Vec<u32> = op["s"].as_array().unwrap().iter().map(|p| hws[hi].map[p.as_u64().unwrap() as usize]).collect();
+        // "full" embedding: the set of ALL abstract processors stands for every processor of the instance
+        if hws[hi].full && ids.len() == hws[hi].map.len() {
+            ids = hws[hi].procs.iter().map(|(id, _)| *id).collect();
+        }
         let cmd = match op["op"].as_str().unwrap() {
             "pin" => Cmd::Pin(hi, ids.clone()),
+            "pin_refused" => Cmd::PinRefused(hi, ids.clone()),
+            "plain_pin" => Cmd::PlainPin(hi, ids.clone()),
             "spawn_threads" => Cmd::SpawnThreads(hi, ids.clone()),
             "spawn_thread" => Cmd::SpawnThread(hi, ids.clone()),
             o => panic!("unknown op {o}"),
@@ -491,6 +557,9 @@ pub fn histories(cases: &str, out: &str, bindings: &str) {
                     match c {
                         'R' => real_hw(h, inj.clone()),
                         'L' => linux_instance(h, e),
+                        // lower case: the same, with the full abstract set standing for every processor of the instance
+                        'r' => Hw { full: true, ..real_hw(h, inj.clone()) },
+                        'l' => Hw { full: true, ..linux_instance(h, e) },
                         // fake: ids unrelated to the real ones; processors 0,1 share a region, 2 is alone, one bystander
                         _ => fake_hw(h, &[(5, 4), (6, 4), (9, 7), (11, 7)], vec![5, 6, 9]),
                     }
